@@ -31,6 +31,10 @@ STRENGTHENED = {
     "C19-agent3-2": "would have been MISSED (exponential cooling was always given as a float); caught after schedule objects (incl. exponential_cooling) are built once per case and shared by its runs",
     "C17-agent3-1": "MISSED at first; caught (1 hit in 12 k quick runs - marginal, thorough is the reliable tier) after duplicated columns and pools without unit columns were generated",
     "C17-agent3-2": "would have been MISSED (gap_tol was never passed); caught after solve_bp also runs with gap_tol 0.01 / 0.04, values that cannot legitimise a non-minimal plan of <= 20 rolls",
+    "C15-agent4-3": "would have been MISSED (every case built a fresh lambda); caught after 20 % of the cases use ONE module-level call-back object and the node sequence 0..n-1, as earlier cases of the same worker did",
+    "C19-agent4-3": "would have been MISSED (alns weights were never passed); caught after caller-supplied weight lists, shared by the runs of a case, were added",
+    "C12-agent4-2": "would have been MISSED (weights were multiples of 1/4); caught after the tiny dyadic weight mode (multiples of 2^-40) was added",
+    "C09-agent4-1": "MISSED at first, and still missed after a first attempt (a 1e9 arc next to costs -3..6 rarely matters); caught after penalty instances draw their other costs from -10..20",
     "C17-agent-3": "MISSED at first (only integer roll widths were generated); caught after fractional roll widths were added",
 }
 WHAT = {}
